@@ -288,6 +288,7 @@ func runC18(c *Ctx) {
 	ruleSizeGuard(c, "mapset")
 	ruleSetArgFlow(c)
 	ruleEmptyAgreesLen(c, "mapset", "Set")
+	ruleConstIndex(c, "mapset")
 	ruleNilWriteback(c)
 	ruleNilBranchStores(c)
 	// IsEmpty is Len() == 0 (a non-nil set without members is empty); HasAny answers true only after a member was found
@@ -310,6 +311,45 @@ func runC18(c *Ctx) {
 		})
 		c.sawFn(fnName(ie))
 		c.judge(okE, "R-PREDICATE-WITNESS", "mapset.Set.IsEmpty:tests the length", ie.Pos(), "len(s) == 0", "IsEmpty does not test the number of members (a nil test, say): a set that was emptied, or made by New(), has no members and is not nil")
+	}
+	// an answer COMPUTED from sizes alone (`return len(ts) == 0`) is the answer for an empty receiver only: it is
+	// given under a dominating test that the receiver has no members
+	for _, fn := range P.Methods("mapset", "Set") {
+		if fn.Signature.Results().Len() != 1 || len(fn.Params) == 0 {
+			continue
+		}
+		if bt, ok := fn.Signature.Results().At(0).Type().Underlying().(*types.Basic); !ok || bt.Kind() != types.Bool {
+			continue
+		}
+		fn := fn
+		k := 0
+		allInstrs(fn, func(in ssa.Instruction) {
+			ret, ok := in.(*ssa.Return)
+			if !ok || len(ret.Results) != 1 {
+				return
+			}
+			bo, ok := ret.Results[0].(*ssa.BinOp)
+			if !ok {
+				return
+			}
+			ln, isLen := isBuiltinCall(bo.X, "len")
+			if _, isK := constInt(bo.Y); !isLen || !isK || ln.Call.Args[0] == ssa.Value(fn.Params[0]) {
+				return // IsEmpty itself, or not a size test of the other operand
+			}
+			emptyRecv := false
+			for _, cm := range cmpsAt(ret.Block()) {
+				l2, ok := isBuiltinCall(cm.X, "len")
+				if !ok || l2.Call.Args[0] != ssa.Value(fn.Params[0]) {
+					continue
+				}
+				if kk, ok := constInt(cm.Y); ok && ((cm.Op == token.EQL && kk == 0) || (cm.Op == token.LEQ && kk == 0) || (cm.Op == token.LSS && kk == 1)) {
+					emptyRecv = true
+				}
+			}
+			k++
+			c.sawFn(fnName(fn))
+			c.judge(emptyRecv, "R-PREDICATE-WITNESS", fmt.Sprintf("%s:answer from sizes #%d", fnName(fn), k), ret.Pos(), "given only for an empty receiver", fmt.Sprintf("%s answers `%s` — sizes alone, no member consulted — on a path where the receiver is not known to be empty: for a set that has members the answer ignores them", fn.Name(), ksym(bo)))
+		})
 	}
 	if ha := P.Func("mapset", "Set", "HasAny"); ha != nil {
 		var probs []string
